@@ -156,8 +156,8 @@ Proof.
     unfold send_pending. destruct (s_sendq k) eqn:Eq; auto; exfalso.
     qrule Hq Hlt Hn r_send c. rewrite Eq in Hr. unfold protected_free in Hr. rewrite Hfree in Hr.
     destruct o.
-    * destruct (s_done k); try discriminate. destruct (sctx_done k || wfail s); discriminate.
-    * destruct (sctx_done k || wfail s); discriminate.
+    * revert Hr. repeat match goal with |- context [if ?x then _ else _] => destruct x end; discriminate.
+    * revert Hr. repeat match goal with |- context [if ?x then _ else _] => destruct x end; discriminate.
   - (* Header *)
     unfold header_pending. destruct (s_header k) eqn:Eh; auto; exfalso.
     assert (Hp : k_pc k = POpen).
